@@ -486,7 +486,13 @@ func c13r10(c *Ctx) {
 		return
 	}
 	n := 0
-	for _, fn := range c.FnsOfPkg("message") {
+	// constOffsets lists the constant-offset accesses to buffer value buf inside fn: (instruction, bytes needed)
+	type acc struct {
+		in   ssa.Instruction
+		need int64
+	}
+	constOffsets := func(fn *ssa.Function, isBuf func(ssa.Value) bool) []acc {
+		var out []acc
 		allInstrs(fn, func(_ *ssa.BasicBlock, _ int, in ssa.Instruction) {
 			var buf ssa.Value
 			need := int64(0)
@@ -508,15 +514,19 @@ func c13r10(c *Ctx) {
 			default:
 				return
 			}
-			if need <= 0 || !isByteSlice(buf.Type()) {
-				return
+			if need > 0 && isByteSlice(buf.Type()) && isBuf(buf) {
+				out = append(out, acc{in, need})
 			}
-			call, idx := originCall(buf)
-			if call == nil || idx != 0 || calleeFn(call) != gb {
-				return
+		})
+		return out
+	}
+	for _, fn := range c.FnsOfPkg("message") {
+		for _, cs := range callsIn(fn, gb.Object()) {
+			bufV := extractN(cs.Value(), 0)
+			if bufV == nil {
+				continue
 			}
-			n++
-			count := call.Common().Args[len(call.Common().Args)-1]
+			count := cs.Common().Args[len(cs.Common().Args)-1]
 			root := count
 			for {
 				if cv, ok := root.(*ssa.Convert); ok {
@@ -525,15 +535,51 @@ func c13r10(c *Ctx) {
 				}
 				break
 			}
-			cuts := newCuts().AddEdges(geqEdgesOn(fn, func(v ssa.Value) bool { return v == root || v == count }, need)...)
-			cuts.AddEdges(c13LenGeqEdges(fn, buf, need)...)
-			construct := fmt.Sprintf("%s#GetBytes-result@offset%d", fnName(fn), need)
-			if p := findPath(entryPoint(fn), Target{Instr: in}, cuts); p != nil {
-				c.Violate(rule, construct, fmt.Sprintf("a buffer of peer-chosen length n is indexed at a constant offset needing %d byte(s) without n >= %d having been established: n <= 0 panics", need, need), in.Pos(), c.describePath(p)...)
-			} else {
-				c.Ok(rule, construct, fmt.Sprintf("dominated by n >= %d", need), in.Pos())
+			isRoot := func(v ssa.Value) bool { return v == root || v == count }
+			fromCall := func(v ssa.Value) bool {
+				call, idx := originCall(v)
+				return call != nil && idx == 0 && call == cs
 			}
-		})
+			check := func(at ssa.Instruction, need int64, where string, pos token.Pos) {
+				n++
+				cuts := newCuts().AddEdges(geqEdgesOn(fn, isRoot, need)...).AddEdges(c13LenGeqEdges(fn, bufV, need)...)
+				construct := fmt.Sprintf("%s#GetBytes-result@offset%d%s", fnName(fn), need, where)
+				if p := findPath(entryPoint(fn), Target{Instr: at}, cuts); p != nil {
+					c.Violate(rule, construct, fmt.Sprintf("a buffer of peer-chosen length n is indexed at a constant offset needing %d byte(s) without n >= %d having been established: n <= 0 panics", need, need), pos, c.describePath(p)...)
+				} else {
+					c.Ok(rule, construct, fmt.Sprintf("dominated by n >= %d", need), pos)
+				}
+			}
+			for _, a := range constOffsets(fn, fromCall) {
+				check(a.in, a.need, "", a.in.Pos())
+			}
+			// the buffer handed to a same-package helper: the helper's constant offsets into that parameter must be
+			// covered by what is established before the call
+			allInstrs(fn, func(_ *ssa.BasicBlock, _ int, in ssa.Instruction) {
+				call, ok := in.(*ssa.Call)
+				if !ok {
+					return
+				}
+				g := calleeFn(call)
+				if !isModuleFn(g) || fnPkg(g) != fnPkg(fn) {
+					return
+				}
+				for i, a := range call.Call.Args {
+					if !fromCall(a) || i >= len(g.Params) {
+						continue
+					}
+					par := g.Params[i]
+					for _, ac := range constOffsets(g, func(v ssa.Value) bool { return v == ssa.Value(par) }) {
+						// unless the helper guards it itself
+						if findPath(entryPoint(g), Target{Instr: ac.in}, newCuts().AddEdges(c13LenGeqEdges(g, par, ac.need)...)) == nil {
+							n++
+							continue
+						}
+						check(in, ac.need, " via "+g.Name(), ac.in.Pos())
+					}
+				}
+			})
+		}
 	}
 	c.MinCount(rule, "constant offsets into GetBytes results", n, 1)
 }
